@@ -2,7 +2,8 @@
 
 proof:          lean/MPilot/Props/C04.lean  (fuzzy_range: all 14 producers, no hypothesis on inputs or parameters)
 correspondence: real `execute` of the 14 producers vs the model's `exec`, parameters deliberately outside [-1, 1]
-oracle:         min/max of the non-missing cells of every implementation result
+oracle:         min/max of the non-missing cells of every implementation result; the same when the producers are commands of plug-in classes
+                derived from the built-in fuzzy commands (directly and inside Programs)
 """
 from .. import common, eems
 
@@ -135,6 +136,93 @@ def after_write(ctx, count):
                 break
 
 
+def derived_producers(ctx):
+    """user libraries EXTEND built-in commands: a plug-in class derived from CvtToFuzzy, FuzzyOr, FuzzyUnion ... (to inherit its flags, its parameters, its
+    documentation) hands out whatever its author computes - a contrast stretch of the inherited result, a field of its own - and may leave the fuzzy range.
+    That is the plug-in's business; the BUILT-IN fuzzy commands fed with such results still return values within [-1, +1] (nothing about the class of a
+    producer says anything about its values).  Directed: a plug-in derived from each of the 14 built-in fuzzy producers x every fuzzy operator, one to three
+    inputs, called directly and inside a Program; and whole Programs in which plug-ins that post-process the inherited result stand next to built-in commands"""
+    import numpy
+    from collections import OrderedDict
+    from mpilot.arguments import Argument, ListArgument
+    from mpilot.exceptions import MPilotError
+    from ..eems import Case
+    wide = numpy.ma.array([1.25, -3.0, 0.5, -1.0, 7.0, 0.0, -1.5, 1.0], mask=[False, False, False, False, False, True, False, False])
+
+    def in_range(what, r, desc):
+        ctx.count("derived_producer_results")
+        if not isinstance(r, numpy.ndarray):
+            ctx.fail("%s returned %s, not an array" % (what, type(r).__name__), desc)
+            return
+        cells = numpy.ma.getdata(r)[~numpy.ma.getmaskarray(r)]
+        bad = cells[~((cells >= -1) & (cells <= 1))]
+        if bad.size:
+            ctx.fail("%s returned value(s) outside [-1, 1]: %r" % (what, bad.tolist()[:3]), desc)
+
+    consumers = []
+    for cmd in ("FuzzyOr", "FuzzyAnd", "FuzzyUnion", "FuzzySelectedUnion", "FuzzyWeightedUnion", "FuzzyXOr", "FuzzyNot"):
+        for n in ((1,) if cmd == "FuzzyNot" else (2, 3) if cmd == "FuzzyXOr" else (1, 2, 3)):
+            for params in ({"FuzzySelectedUnion": [{"TruestOrFalsest": "Truest", "NumberToConsider": 1}, {"TruestOrFalsest": "Falsest", "NumberToConsider": n}],
+                            "FuzzyWeightedUnion": [{"Weights": [1] * n}, {"Weights": [2, -0.5, 0.25][:n]}]}.get(cmd, [{}])):
+                consumers.append((cmd, n, params))
+    for base in eems.FUZZY_PRODUCERS:
+        for cmd, n, params in consumers:
+            case = Case(cmd, params, [wide.copy() if j % 2 == 0 else -wide.copy() * 0.75 for j in range(n)])
+            desc = dict(case.describe(), producers="finished commands of a plug-in class derived from the built-in %s" % base)
+            out = eems.run_impl(case, derived=base)
+            piped = eems.run_pipeline(case, derived=base, producers_first=bool(n % 2))
+            ctx.case("derived %s %s" % (base, case.line()), sample=None)
+            for how, o in (("called directly", out), ("inside a Program", piped)):
+                if o["status"] == "ok":
+                    in_range("%s over %d result(s) of a plug-in command derived from %s (%s)" % (cmd, n, base, how), o["result"], desc)
+                else:
+                    ctx.fail("%s over %d result(s) of a plug-in command derived from %s (%s) fails: %s %s" % (cmd, n, base, how, o.get("kind"), o.get("cls")), desc)
+    # whole Programs: Raw (a plug-in's field) -> built-in conversions and plug-ins that stretch the inherited result -> built-in operators over both
+    dl, al = eems.derived_lib(), eems.arrays_lib()
+    raw = numpy.ma.array([0.0, 1.0, 2.0, 3.0, 4.0, 5.0, 6.0, 7.0, 8.0, 9.0, 10.0], mask=[False] * 5 + [True] + [False] * 5)
+    stretched = [("CvtToFuzzy", {"InFieldName": "Raw", "TrueThreshold": 10, "FalseThreshold": 0}), ("CvtToFuzzyCurve", {"InFieldName": "Raw", "RawValues": [0, 5, 10], "FuzzyValues": [-1, 0.5, 1]}),
+                 ("CvtToFuzzyZScore", {"InFieldName": "Raw", "TrueThresholdZScore": 1, "FalseThresholdZScore": -1}), ("CvtToBinary", {"InFieldName": "Raw", "Threshold": 4, "Direction": "LowToHigh"}),
+                 ("CvtToFuzzyCat", {"InFieldName": "Raw", "RawValues": [1, 2, 9], "FuzzyValues": [1, -1, 0.5], "DefaultFuzzyValue": -0.75}),
+                 ("FuzzyNot", {"InFieldName": "Plain"}), ("FuzzyOr", {"InFieldNames": ["Plain", "Other"]}), ("FuzzyAnd", {"InFieldNames": ["Plain"]}), ("FuzzyUnion", {"InFieldNames": ["Plain", "Other"]}),
+                 ("FuzzyXOr", {"InFieldNames": ["Plain", "Other"]}), ("FuzzySelectedUnion", {"InFieldNames": ["Plain", "Other"], "TruestOrFalsest": "Truest", "NumberToConsider": 1}),
+                 ("FuzzyWeightedUnion", {"InFieldNames": ["Plain", "Other"], "Weights": [1, 3]})]
+
+    def arg(k, v):
+        return ListArgument(k, list(v), 3, [3] * len(v)) if isinstance(v, list) else Argument(k, v, 3)
+    for base, bargs in stretched:
+        for gain, shift in ((1.5, 0), (-2, 0), (1, 0.5), (1, 0)):
+            al.HOLD.clear()
+            al.HOLD["Raw"] = raw.copy()
+            p = eems.new_pipeline_program()
+            steps = [("Raw", al.HeldData, {}), ("Plain", eems.command_class("CvtToFuzzy"), {"InFieldName": "Raw", "TrueThreshold": 10, "FalseThreshold": 0}),
+                     ("Other", eems.command_class("CvtToFuzzy"), {"InFieldName": "Raw", "TrueThreshold": 2, "FalseThreshold": 8}),
+                     ("Boosted", dl.BOOSTED[base], dict(bargs, Gain=gain, Shift=shift)),
+                     ("NotB", eems.command_class("FuzzyNot"), {"InFieldName": "Boosted"}), ("OrB", eems.command_class("FuzzyOr"), {"InFieldNames": ["Plain", "Boosted"]}),
+                     ("AndB", eems.command_class("FuzzyAnd"), {"InFieldNames": ["Boosted", "Plain"]}), ("OnlyOr", eems.command_class("FuzzyOr"), {"InFieldNames": ["Boosted"]}),
+                     ("OnlyAnd", eems.command_class("FuzzyAnd"), {"InFieldNames": ["Boosted"]}), ("UnionB", eems.command_class("FuzzyUnion"), {"InFieldNames": ["Boosted", "Boosted"]}),
+                     ("XOrB", eems.command_class("FuzzyXOr"), {"InFieldNames": ["Boosted", "Other"]}),
+                     ("SelB", eems.command_class("FuzzySelectedUnion"), {"InFieldNames": ["Other", "Boosted"], "TruestOrFalsest": "Falsest", "NumberToConsider": 1}),
+                     ("WtdB", eems.command_class("FuzzyWeightedUnion"), {"InFieldNames": ["Boosted", "Other"], "Weights": [3, 1]}),
+                     ("NotNotB", eems.command_class("FuzzyNot"), {"InFieldName": "NotB"})]
+            desc = {"program": ["%s = %s(%s)" % (nm, cls.__name__, ", ".join("%s = %r" % kv for kv in a.items())) for nm, cls, a in steps],
+                    "Raw": repr(raw.tolist()), "Boosted": "plug-in class derived from the built-in %s: the inherited result * Gain + Shift" % base}
+            import warnings
+            try:
+                with warnings.catch_warnings(), numpy.errstate(all="ignore"):
+                    warnings.simplefilter("ignore")
+                    for nm, cls, a in steps:
+                        p.add_command(cls, nm, OrderedDict((k, arg(k, v)) for k, v in a.items()), lineno=1)
+                    p.run()
+            except Exception as e:
+                ctx.fail("a Program with a plug-in command derived from %s (Gain %r, Shift %r) fails: %s %s" % (base, gain, shift, type(e).__name__, str(e)[:100]), desc)
+                continue
+            ctx.case("derived-program %s %r %r" % (base, gain, shift), sample=None)
+            for nm, cls, a in steps:
+                if cls.__module__.startswith("mpilot.libraries.eems.") and getattr(cls, "is_fuzzy", False):
+                    in_range("the built-in %s (result %s of a Program in which Boosted is a plug-in derived from %s, Gain %r, Shift %r)" % (cls.__name__, nm, base, gain, shift),
+                             p.commands[nm].result, desc)
+
+
 def run(ctx):
     ctx.check_proofs(["MPilot.Props.C04"])
     model = common.Model()
@@ -144,6 +232,7 @@ def run(ctx):
     eems.run_stream(ctx, model, eems.gen_chains(ctx.rng, ctx.budget(60, 2500), chain_consumers), "exec:fuzzy-chains", on_result=oracle(ctx))
     eems.run_stream(ctx, model, directed_chains(), "exec:fuzzy-chains-directed", on_result=oracle(ctx))
     after_write(ctx, ctx.budget(20, 600))
+    derived_producers(ctx)
     if ctx.disagreements and not ctx.failures:
         # failing-input search: enlarged budget focused on the commands whose correspondence broke
         cmds = sorted(set(d["case"]["cmd"] for d in ctx.disagreements))
@@ -164,6 +253,11 @@ def replay(path):
     model = common.Model()
     rc = 0
     for item in obj.get("failures", []) + obj.get("disagreements", []):
+        if not isinstance(item.get("case"), dict) or "protocol" not in item["case"]:
+            # a directed scenario (fields of millions of cells, whole Programs, sequences): described in words and by its generator seed; the check itself rebuilds it
+            print("what:", item.get("what"))
+            print("scenario:", json.dumps(item.get("case"), sort_keys=True, default=str)[:2000])
+            continue
         line = item["case"]["protocol"]
         print("case:", line)
         print("model:", model.ask([line])[0])
